@@ -36,6 +36,15 @@ theorem keyLe_trans (a b c : Ready) (h1 : keyLe a b = true) (h2 : keyLe b c = tr
   simp only [Bool.or_eq_true, Bool.and_eq_true, decide_eq_true_eq, beq_iff_eq] at *
   omega
 
+/-- The sort key is injective on `Ready` records: two entries that compare `≤` both ways are equal.
+Together with totality and transitivity this makes the sorted permutation unique. -/
+theorem keyLe_antisymm (a b : Ready) (h1 : keyLe a b = true) (h2 : keyLe b a = true) : a = b := by
+  cases a; cases b
+  unfold keyLe at *
+  simp only [Bool.or_eq_true, Bool.and_eq_true, decide_eq_true_eq, beq_iff_eq] at *
+  simp only [Ready.mk.injEq]
+  omega
+
 theorem collectAux_states (sv : Nat → Bool) (now : Int) (i : Nat) (l : List (Task × TState)) :
     (collectAux sv now i l).1 =
       l.map (fun p => (stepTask p.1.interval p.2 now (singleNow p.1 sv)).st) := by
